@@ -1,6 +1,6 @@
 """C17 — findings are a function of the sources (deterministic, order independent).
 
-Proof side: coq/props/C17.v (19 obligations).  Over Model.Runner: the displayed
+Proof side: coq/props/C17.v (22 obligations).  Over Model.Runner: the displayed
 multiset, exit status and SARIF content are the same for every order in which
 the name maps are iterated and every set of lookups; FileIDs are names.  Over
 Model.RunnerLib (the code after the repair of D22): the order in which
@@ -30,8 +30,11 @@ What this engine does (third audit: see design.d/C17.md):
      interface assumed by Model.RunnerSrc (a difference is a failing input when
      all sources agree, a no-input violation naming the interface otherwise);
  (4) the witness of C17_referenced_definition_matters on the real code;
- (5) duplicated names: deterministic, and analysed like the project without
-     the later definitions (Model.RunnerLib's oracle; no carve-out);
+ (5) duplicated names: deterministic, and analysed like the project in which
+     only the first definition of a name in the TOOL's FileID order is left
+     (Model.RunnerLib's oracle); the same files named in the other order on the
+     command line: known finding C17-duplicate-name-file-order for exactly the
+     definitions of that name and those that look it up, a violation elsewhere;
  (6) the extracted Model.Runner (engine e2e) against the binary."""
 import copy
 import itertools
@@ -73,7 +76,7 @@ POS_IN_MSG = re.compile(r":\d+:\d+\b")
 
 def norm_msg(msg, pdir):
     """the property allows findings to differ in line numbers: positions spelled out in a MESSAGE are normalised too"""
-    msg = (msg or "").replace(pdir, "<dir>")
+    msg = (msg or "").replace(pdir, "<dir>").replace("<dir>/" + UDIR + "/", "<dir>/")
     msg = POS_IN_MSG.sub(":#:#", LINE_IN_MSG.sub(r"\1 #", msg))
     return GEN_NAME.sub(r"\1_#_#", msg)
 
@@ -293,6 +296,37 @@ def enrich(rng, st, feats_seen):
                     line += " " + " ".join("component nq%d_%d = Num2Bits(%d); nq%d_%d.in <== in;" % (j, t, 254 + t, j, t) for t in range(nn))
                     text = insert_before_last(text, "out <== in;", line)
                     feats_seen["less_than_many_num2bits"] = feats_seen.get("less_than_many_num2bits", 0) + 1
+                if rng.random() < 0.2:
+                    # `c <-- a / b` with a non-constant divisor and two or three IsZero components, at most one of them on the
+                    # divisor (CS0015 asks whether ANY of the components - a HashMap - ensures that it is non-zero)
+                    nz = rng.choice([2, 2, 3])
+                    on = rng.randrange(nz + 1)            # nz: no component is on the divisor -> CS0015 is reported
+                    parts = ["signal input dv%d; signal output qd%d;" % (j, j)]
+                    for t in range(nz):
+                        parts.append("component iz%d_%d = IsZero(); iz%d_%d.in <== %s; iz%d_%d.out === 0;"
+                                     % (j, t, j, t, "dv%d" % j if t == on else "in + %d" % t, j, t))
+                    parts.append("qd%d <-- in / dv%d; qd%d * dv%d === in;" % (j, j, j, j))
+                    text = insert_before_last(text, "out <== in;", " ".join(parts))
+                    feats_seen["division_with_iszero"] = feats_seen.get("division_with_iszero", 0) + 1
+                if rng.random() < 0.2:
+                    # intermediate signals constrained inside a loop (ConstraintLocation::Loop), two by one statement
+                    text = insert_before_last(text, "out <== in;",
+                                              "signal lb%d[2]; signal ld%d[2]; for (var li%d = 0; li%d < 2; li%d++) { ld%d[li%d] <== in + li%d; "
+                                              "lb%d[li%d] <== in * ld%d[li%d]; }" % ((j,) * 12))
+                    feats_seen["signals_constrained_in_loop"] = feats_seen.get("signals_constrained_in_loop", 0) + 1
+                if rng.random() < 0.2:
+                    # an else branch under a non-constant condition (a parameter / a signal)
+                    cond = rng.choice(["n > 2", "in == 1"])
+                    text = insert_before_last(text, "out <== in;", "var ne%d = 0; if (%s) { ne%d = 1; } else { ne%d = n + 2; }" % (j, cond, j, j))
+                    feats_seen["non_constant_else"] = feats_seen.get("non_constant_else", 0) + 1
+                if rng.random() < 0.15:
+                    # inputs that no constraint mentions (candidates of the constraint analysis: CA01), two per template
+                    text = insert_before_last(text, "out <== in;", "signal input ca%d; signal input cb%d; signal output co%d; co%d <-- ca%d * cb%d;" % ((j,) * 6))
+                    feats_seen["unconstrained_inputs"] = feats_seen.get("unconstrained_inputs", 0) + 1
+                if rng.random() < 0.12:
+                    # circuits of Circomlib that are only sound over BN254 (CS0016 on the other curves), two per template
+                    text = insert_before_last(text, "out <== in;", "component sg%d = Sign(); component ps%d = Poseidon(2);" % (j, j))
+                    feats_seen["bn254_specific"] = feats_seen.get("bn254_specific", 0) + 1
                 others = [t for t in tnames if t != name]
                 if others and rng.random() < 0.3:
                     o = rng.choice(others)
@@ -355,6 +389,7 @@ def gen_structure(rng, k, rich, feats_seen, big=False):
 
 
 LIBDIR = "ldir"
+UDIR = "udir"
 
 
 def render(st, tag, argv=None):
@@ -364,6 +399,10 @@ def render(st, tag, argv=None):
         moved = {f["name"] for f in st["files"] if not f["user"]}
         p.files = {(LIBDIR + "/" + n if n in moved else n): t for n, t in p.files.items()}
         p.libs = [LIBDIR]
+    if st.get("userdir"):
+        users = {f["name"] for f in st["files"] if f["user"]}
+        p.files = {(UDIR + "/" + n if n in users else n): t for n, t in p.files.items()}
+        p.argv = [UDIR]
     p.meta["curve"] = st.get("curve", "BN254")
     return p
 
@@ -371,10 +410,9 @@ def render(st, tag, argv=None):
 # ---- duplicated names (defect D22, repaired in /repo f1ec9dc): no carve-out, and an oracle ----------------------------
 
 def dup_projects(rng):
-    """Projects in which a name is defined twice, with the project that the repaired code must treat it like: the one in
-    which every LATER definition of a name (file-id order = order in which the files are read: the command line from its
-    LAST file to its first, the includes of a file right after it; then source order) is deleted.
-    -> list of (project with duplicates, reduced project, number of deleted definitions, shape)"""
+    """Projects in which a name is defined more than once.  -> list of specs {"files": {name: (head, [(defined name, text)],
+    tail)}, "argv", "shape", "curve", "pair"}; two specs with the same "pair" are the same files named in the two orders on
+    the command line (the class of the known finding C17-duplicate-name-file-order)."""
     def t(name, op, extra=""):
         return "template %s(n) {\n    signal input in;\n    signal output out;\n    %s\n    out %s in;\n}" % (name, extra, op)
 
@@ -382,43 +420,53 @@ def dup_projects(rng):
         return "function %s(a, b) {\n    %s\n    return a + b;\n}" % (name, body)
     out = []
     pragma = "pragma circom 2.0.0;\n"
-    user = "template User(n) {\n    signal input in;\n    signal output out;\n    component k = T(1);\n    k.in <== in;\n    out <== in;\n}"
+    user = ("User", "template User(n) {\n    signal input in;\n    signal output out;\n    component k = T(1);\n    k.in <== in;\n    out <== in;\n}")
     for rep in range(2):
-        a = t("T", "<==", "var ua%d = n + 1;" % rep)
-        b = t("T", "<--", "signal output extra; extra <-- in * in;")
-        other = t("Other%d" % rep, "<==", "var c = 0; if (1 == 1) { c = 1; }")
-        for order in (["a.circom", "b.circom"], ["b.circom", "a.circom"]):
-            # FileStack is a stack: the LAST file of the command line is read first and gets the smallest FileID
-            first, second = (a, b) if order[-1] == "a.circom" else (b, a)
-            # two user files, library mode
-            files = {"a.circom": pragma + a + "\n" + user + "\n", "b.circom": pragma + b + "\n" + other + "\n"}
-            red = dict(files)
-            red[order[0]] = red[order[0]].replace(second + "\n", "")
-            out.append((files, red, order, 1, "two-files-library"))
-            # the same with a main component (program mode)
-            files2 = dict(files)
-            files2["a.circom"] += "component main = User(1);\n"
-            red2 = dict(red)
-            red2["a.circom"] += "component main = User(1);\n"
-            out.append((files2, red2, order, 1, "two-files-program"))
-        # twice in one file
-        files = {"a.circom": pragma + a + "\n" + user + "\n" + b + "\n"}
-        out.append((files, {"a.circom": pragma + a + "\n" + user + "\n"}, ["a.circom"], 1, "one-file"))
-        # a function and a template of the same name, and a name defined three times
-        f1 = fn("T", "var uf = a + 1;")
-        files = {"a.circom": pragma + f1 + "\n" + other + "\n", "b.circom": pragma + b + "\n" + a + "\n"}
-        out.append((files, {"a.circom": files["a.circom"], "b.circom": pragma}, ["b.circom", "a.circom"], 2, "function-and-template"))
-        out.append((files, {"a.circom": pragma + other + "\n", "b.circom": pragma + b + "\n"}, ["a.circom", "b.circom"], 2,
-                    "function-and-template"))
-        # the duplicate lives in an included file (the file named on the command line is read first)
-        files = {"a.circom": pragma + 'include "inc.circom";\n' + a + "\n" + user + "\n", "inc.circom": pragma + b + "\n" + other + "\n"}
-        out.append((files, {"a.circom": files["a.circom"], "inc.circom": pragma + other + "\n"}, ["a.circom"], 1, "included-file"))
-    res = []
-    for i, (files, red, argv, ndel, shape) in enumerate(out):
-        curve = rng.choice(CURVES)
-        res.append((e2e.Project(files, argv, tag="dup%d-%s" % (i, shape), meta={"curve": curve, "shape": shape}),
-                    e2e.Project(red, argv, tag="dup%d-%s-reduced" % (i, shape), meta={"curve": curve, "shape": shape}), ndel, shape))
-    return res
+        a = ("T", t("T", "<==", "var ua%d = n + 1;" % rep))
+        b = ("T", t("T", "<--", "signal output extra; extra <-- in * in;"))
+        other = ("Other%d" % rep, t("Other%d" % rep, "<==", "var c = 0; if (1 == 1) { c = 1; }"))
+        f1 = ("T", fn("T", "var uf = a + 1;"))
+        groups = [
+            # two user files, library mode / with a main component (program mode)
+            ("two-files-library", {"a.circom": (pragma, [a, user], ""), "b.circom": (pragma, [b, other], "")},
+             [["a.circom", "b.circom"], ["b.circom", "a.circom"]]),
+            ("two-files-program", {"a.circom": (pragma, [a, user], "component main = User(1);\n"), "b.circom": (pragma, [b, other], "")},
+             [["a.circom", "b.circom"], ["b.circom", "a.circom"]]),
+            # twice in one file
+            ("one-file", {"a.circom": (pragma, [a, user, b], "")}, [["a.circom"]]),
+            # a function and a template of the same name, and a name defined three times
+            ("function-and-template", {"a.circom": (pragma, [f1, other], ""), "b.circom": (pragma, [b, a], "")},
+             [["b.circom", "a.circom"], ["a.circom", "b.circom"]]),
+            # the duplicate lives in an included file
+            ("included-file", {"a.circom": (pragma + 'include "inc.circom";\n', [a, user], ""), "inc.circom": (pragma, [b, other], "")},
+             [["a.circom"]]),
+        ]
+        for gi, (shape, files, argvs) in enumerate(groups):
+            curve = rng.choice(CURVES)
+            for argv in argvs:
+                out.append({"files": files, "argv": argv, "shape": shape, "curve": curve,
+                            "pair": (rep, gi) if len(argvs) > 1 else None})
+    return out
+
+
+def dup_render(spec, i, keep_order=None):
+    """the project of a spec; with keep_order (a list of file names): the project in which every definition of a name but
+    the FIRST one in that order of the files (then source order) is deleted.  -> (project, number of deleted definitions)"""
+    files, ndel, seen = {}, 0, set()
+    kept = {}
+    for name in (keep_order or []):
+        kept[name] = []
+        for dn, text in spec["files"][name][1]:
+            if dn in seen:
+                ndel += 1
+            else:
+                seen.add(dn)
+                kept[name].append((dn, text))
+    for name, (head, defs, tail) in spec["files"].items():
+        ds = kept.get(name, defs) if keep_order else defs
+        files[name] = head + "".join(text + "\n" for _, text in ds) + tail
+    tag = "dup%d-%s%s" % (i, spec["shape"], "-kept-" + "-".join(keep_order) if keep_order else "")
+    return e2e.Project(files, spec["argv"], tag=tag, meta={"curve": spec["curve"], "shape": spec["shape"]}), ndel
 
 
 INCLUDE = re.compile(r'^\s*include\s+"([^"]*)"\s*;', re.M)
@@ -430,7 +478,11 @@ def source_definitions(p):
     include (the including file's directory first, then the -L directories), each file once, in the order in which
     FileStack hands them out (a stack).
     -> list of (file, kind, name)"""
-    seen, order, stack = set(), [], list(p.argv)         # FileStack: the last file of the command line is read first
+    argv = []
+    for a in p.argv:                                     # a directory stands for the .circom files below it
+        inside = sorted(n for n in p.files if n.startswith(os.path.normpath(a) + "/") and n.endswith(".circom"))
+        argv += inside if a not in p.files and inside else [a]
+    seen, order, stack = set(), [], list(argv)           # FileStack: the last file of the command line is read first
     while stack:
         name = stack.pop()
         name = os.path.normpath(name)
@@ -568,6 +620,12 @@ def variants(ctx, st, k, extra_same=0):
         s7["files"] = [g for g in s7["files"] if g["name"] != f["name"]]
         out.append(("file-removed", s7, None))
         break
+    # the user files in a DIRECTORY that is named on the command line instead of them (fs::read_dir order decides the FileIDs):
+    # possible when their includes do not depend on where they lie
+    if st.get("libdir") or not any(f["includes"] for f in st["files"] if f["user"]):
+        s8 = copy.deepcopy(st)
+        s8["userdir"] = True
+        out.append(("directory-argument", s8, None))
     # a REFERENCED definition changed: only the definitions that look it up (or instantiate it anonymously) may change
     cands = instantiated_names(st)
     mains = " ".join(f["main"] or "" for f in st["files"])
@@ -777,7 +835,7 @@ def compare(ref, got, kind, A, B, infl_a, infl_b, ctx_ids=("CS0018",), stats=Non
             bad.append(o)
     # parse-stage findings (they include the desugarer's per-definition errors)
     pa, pb = list(ref.get(("parse",), [])), list(got.get(("parse",), []))
-    if kind in ("same", "definitions-permuted", "files-permuted"):
+    if kind in ("same", "definitions-permuted", "files-permuted", "directory-argument"):
         if pa != pb:
             bad.append(("parse",))
     else:
@@ -822,6 +880,31 @@ def compare_self_test():
     bad, _, _ = compare({("template", "U"): [f05]}, {("template", "U"): []}, "definitions-added", A, B2, infl, infl)
     if ("template", "U") not in bad:
         out.append("a change of a definition none of whose references changed is not reported")
+    return out
+
+
+CLOCK = re.compile(r"Instant::now|SystemTime::now|\.elapsed\(\)|UNIX_EPOCH")
+CLOCK_ALLOWED = ("program_structure/src/control_flow_graph/cfg.rs",)       # the 10 s box of value / degree propagation (C20)
+
+
+def clock_reads(repo):
+    """Where the code of the pipeline reads a clock (comments and test modules cut off): a finding that depends on elapsed time
+    is not a function of the sources.  -> {relative file: number of reads}"""
+    out = {}
+    for top in ("program_analysis/src", "program_structure/src", "parser/src", "cli/src", "circom_algebra/src"):
+        for d, _, fs in os.walk(os.path.join(repo, top)):
+            for f in fs:
+                if not f.endswith(".rs"):
+                    continue
+                path = os.path.join(d, f)
+                try:
+                    text = open(path, encoding="utf-8").read()
+                except (OSError, UnicodeDecodeError):
+                    continue
+                text = re.sub(r"//[^\n]*", "", text.split("#[cfg(test)]")[0])
+                n = len(CLOCK.findall(text))
+                if n:
+                    out[os.path.relpath(path, repo)] = n
     return out
 
 
@@ -969,20 +1052,25 @@ def run(ctx, proofs):
                 projects.append(p)
                 texts.append({})
                 info.append(("corpus:" + rec["_file"], "same"))
-        # duplicated names: 8 fresh processes each + the reduced project the repaired code must treat them like
+        # duplicated names: 8 fresh processes each + for every order of the project's files the project in which only the first
+        # definition of a name in THAT order is left (which order is the tool's is read from its FileIDs, harness `c17 deps`)
         dups = dup_projects(ctx.rng)
-        dup_idx = []                         # (indices of the 8 copies, index of the reduced project, deleted, shape)
-        for j, (pd, pr, ndel, shape) in enumerate(dups):
+        dup_idx = []                         # (spec, indices of the 8 copies, {file order: (index of the reduced project, deleted)})
+        for j, spec in enumerate(dups):
             ii = []
             for _ in range(8):
-                projects.append(e2e.project_from_description(pd.describe()))
+                projects.append(dup_render(spec, j)[0])
                 texts.append({})
                 info.append((("dup", j), "same"))
                 ii.append(len(projects) - 1)
-            projects.append(pr)
-            texts.append({})
-            info.append((("dup", j), "reduced"))
-            dup_idx.append((ii, len(projects) - 1, ndel, shape))
+            cands = {}
+            for order in itertools.permutations(sorted(spec["files"])):
+                pr, ndel = dup_render(spec, j, list(order))
+                projects.append(pr)
+                texts.append({})
+                info.append((("dup", j), "reduced"))
+                cands[order] = (len(projects) - 1, ndel)
+            dup_idx.append((spec, ii, cands))
         for i, p in enumerate(projects):
             p.write(base, i)
         runs = [{"p": i, "level": "info", "allow": [], "verbose": True, "sarif": True} for i in range(len(projects))]
@@ -1085,6 +1173,11 @@ def run(ctx, proofs):
                                 "what": "the definitions the binary announces (%s) are not a permutation of the user definitions of the "
                                         "runner's maps (%s): [analysis_order] of the runner theorems does not hold for this run"
                                         % (got_o[:8], want_o[:8])})
+        # the hypothesis of C17_files_in_another_order (no name defined twice), on every project whose files are given in
+        # another order / through a directory
+        hyp["names_distinct_where_files_are_reordered"] = {
+            "cases": len([i for i in distinct if info[i][1] in ("files-permuted", "directory-argument")]),
+            "unmet": len([i for i in distinct if info[i][1] in ("files-permuted", "directory-argument") and dup_of[i]])}
         gen_dups = [i for i in distinct if isinstance(info[i][0], int) and dup_of[i]]
         if wf_s_unmet or gen_dups:
             broken.append({"project": projects[gen_dups[0]].describe() if gen_dups else None, "variant": None, "kind": "generator",
@@ -1104,6 +1197,9 @@ def run(ctx, proofs):
             ao_orders += len(a["orders"])
             if len(a["orders"]) < want:
                 ao_incomplete += 1
+                broken.append({"project": projects[i].describe(), "variant": None, "kind": "analysis-orders-incomplete",
+                               "what": "only %d of the %d orders of the two name maps were iterated in %d hash states (cap %d): `every order "
+                                       "through the real analyze_templates` is not met for this project" % (len(a["orders"]), want, a.get("reps", 0), 80 * want)})
             for o in a["orders"]:
                 seen_orders.add((i, o["order"]))
             if len(a["outcomes"]) > 1:
@@ -1214,7 +1310,7 @@ def run(ctx, proofs):
                 failing.append({"project": projects[ref_i].describe(), "what": "run failed or SARIF does not match stdout (exit %s)" % runs[ref_i]["exit"],
                                 "kind": "same"})
                 continue
-            if any(ref.values()):
+            if any(ref.values()) and isinstance(k, int):
                 nontrivial += 1
             ids_seen.update(x[0] for v in ref.values() for x in v)
             for v in ref.values():
@@ -1246,6 +1342,9 @@ def run(ctx, proofs):
             for i in idxs:
                 okv, got = (ok0, ref) if i == ref_i else findings_of_run(projects[i], runs[i])
                 kind = info[i][1]
+                ids_seen.update(x[0] for v in got.values() for x in v)
+                if kind == "directory-argument":
+                    feats_seen["directory_argument"] = feats_seen.get("directory_argument", 0) + 1
                 if i != ref_i:
                     compared += 1
                 seen_orders.add((rep_of[i], " ".join("%s '%s'" % o for o in analysis_order_of(runs[i]["events"]))))
@@ -1370,21 +1469,24 @@ def run(ctx, proofs):
                               "looked-up template present %s / absent %s, lookups %s / %s" % (" ".join(own), ids[0], ids[1], looked[0], looked[1]),
                               {"broken": "C17_referenced_definition_matters (coq/props/C17.v) vs unused_output_signal.rs",
                                "project": wp[0].describe(), "variant": wp[1].describe(), "kind": "witness"}, no_input=True)
-        # ---- (5) duplicated names (D22 repaired): deterministic, and the FIRST definition in file order is the one analysed
-        dup_stats = {"projects": len(dup_idx), "shapes": sorted({s for _, _, _, s in dup_idx}), "deterministic": 0, "first_definition_kept": 0,
-                     "duplicate_reports_seen": 0}
-        for ii, ri, ndel, shape in dup_idx:
+        # ---- (5) duplicated names (D22 repaired): deterministic; analysed like the project in which only the first definition
+        # of a name in FileID order is left (Model.RunnerLib; the FileID order is the TOOL's, read from its file library, not a
+        # reading of FileStack); and the known finding C17-duplicate-name-file-order: the same files named in another order
+        dup_stats = {"projects": len(dup_idx), "shapes": sorted({sp["shape"] for sp, _, _ in dup_idx}), "deterministic": 0,
+                     "first_definition_kept": 0, "duplicate_reports_seen": 0, "file_id_orders_seen": {},
+                     "pairs_in_two_command_line_orders": 0, "pairs_that_differ": 0, "duplicate_report_count_differs_from_deleted": 0}
+        dup_findings = {}                    # index in dup_idx -> findings of the (deterministic) project
+        for dj, (spec, ii, cands) in enumerate(dup_idx):
             res = [findings_of_run(projects[i], runs[i]) for i in ii]
-            okr, red = findings_of_run(projects[ri], runs[ri])
-            if not okr or not all(ok for ok, _ in res):
+            if not all(ok for ok, _ in res):
                 failing.append({"project": projects[ii[0]].describe(), "kind": "duplicated-names",
-                                "what": "run failed or SARIF does not match stdout (exits %s)" % [runs[i]["exit"] for i in ii + [ri]]})
+                                "what": "run failed or SARIF does not match stdout (exits %s)" % [runs[i]["exit"] for i in ii]})
                 continue
             dn = duplicated_names(projects[ii[0]])
-            if not dn or duplicated_names(projects[ri]):
+            if not dn or any(duplicated_names(projects[ri]) for ri, _ in cands.values()):
                 broken.append({"project": projects[ii[0]].describe(), "variant": None, "kind": "generator",
                                "what": "KF_duplicate_definition evaluated on the sources: %s for a project built to have a duplicated name, "
-                                       "%s for its reduced project" % (dn, duplicated_names(projects[ri]))})
+                                       "%s for its reduced projects" % (dn, [duplicated_names(projects[ri]) for ri, _ in cands.values()])})
                 continue
             first = res[0][1]
             dd = next((d for d in (displayed_difference(displayed_of_run(runs[ii[0]]), displayed_of_run(runs[i])) for i in ii[1:]) if d), None)
@@ -1398,11 +1500,12 @@ def run(ctx, proofs):
             fin = inproc_of(rep_of[ii[0]])
             inproc_runs += orders[rep_of[ii[0]]].get("reps", 0)
             if other is not None:
-                o2 = next(x for x in sorted(set(first) | set(res[ii.index(other)][1])) if first.get(x) != res[ii.index(other)][1].get(x))
+                f2 = res[ii.index(other)][1]
+                o2 = next(x for x in sorted(set(first) | set(f2)) if first.get(x) != f2.get(x))
                 failing.append({"project": projects[ii[0]].describe(), "kind": "duplicated-names",
                                 "what": "two runs of the binary on the same files, in which %s is defined more than once, display different "
-                                        "findings for %s: %s vs %s" % (dn, " ".join(o2), [x[:3] for x in first.get(o2, [])][:3],
-                                                                       [x[:3] for x in res[ii.index(other)][1].get(o2, [])][:3])})
+                                        "findings for %s: only in one %s, only in the other %s"
+                                        % (dn, " ".join(o2), only_in(first.get(o2, []), f2.get(o2, [])), only_in(f2.get(o2, []), first.get(o2, [])))})
                 continue
             if fin is None:
                 continue                  # reported by inproc_of
@@ -1412,6 +1515,22 @@ def run(ctx, proofs):
                                 "what": "the binary and the pipeline in process display different findings for %s" % " ".join(o2)})
                 continue
             dup_stats["deterministic"] += 1
+            dup_findings[dj] = first
+            # the order in which the TOOL numbered the files
+            m = maps_of(rep_of[ii[0]])
+            forder = tuple(os.path.relpath(f["path"], projects[rep_of[ii[0]]].dir) for f in (m or {}).get("files", []))
+            if forder not in cands:
+                broken.append({"project": projects[ii[0]].describe(), "variant": None, "kind": "duplicated-names-first-kept",
+                               "what": "the files the tool numbered (%s) are not the files of the project (%s): the first-definition oracle "
+                                       "cannot be evaluated" % (list(forder), sorted(spec["files"]))})
+                continue
+            key = "argv %s -> FileIDs %s" % (" ".join(spec["argv"]), " ".join(forder))
+            dup_stats["file_id_orders_seen"][key] = dup_stats["file_id_orders_seen"].get(key, 0) + 1
+            ri, ndel = cands[forder]
+            okr, red = findings_of_run(projects[ri], runs[ri])
+            if not okr:
+                failing.append({"project": projects[ri].describe(), "kind": "duplicated-names", "what": "run of the reduced project failed"})
+                continue
             # oracle: per definition the findings of the project without the later definitions
             bad_o = [o for o in sorted(set(first) | set(red)) if o != ("parse",) and first.get(o, []) != red.get(o, [])]
             extra = list(first.get(("parse",), []))
@@ -1420,17 +1539,80 @@ def run(ctx, proofs):
                     extra.remove(x)
             missing = [x for x in red.get(("parse",), []) if x not in first.get(("parse",), [])]
             dup_stats["duplicate_reports_seen"] += len(extra)
-            if bad_o or missing or len(extra) != ndel or len({x[0] for x in extra}) > 1:
-                failing.append({"project": projects[ii[0]].describe(), "variant": projects[ri].describe(), "kind": "duplicated-names-first-kept",
-                                "what": "a project in which %s is defined more than once is not analysed like the project without the LATER "
-                                        "definitions (files in the order they are read - command line last to first -, then source order): findings of %s differ (%s vs %s); "
-                                        "parse-stage findings only with duplicates %s (expected %d reports of one kind, one per later "
-                                        "definition), only without %s"
-                                        % (dn, [" ".join(o) for o in bad_o][:3], [x[:3] for x in first.get(bad_o[0], [])][:3] if bad_o else "",
-                                           [x[:3] for x in red.get(bad_o[0], [])][:3] if bad_o else "", [x[:3] for x in extra][:3], ndel,
-                                           [x[:3] for x in missing][:2])})
+            if len(extra) != ndel:
+                dup_stats["duplicate_report_count_differs_from_deleted"] += 1     # (merging them is not C17's business)
+            if bad_o or missing or not 1 <= len(extra) <= ndel or len({x[0] for x in extra}) > 1:
+                # which other choice of kept definitions, if any, the tool follows: deterministic-but-different is a change of
+                # SHAPE (Model.RunnerLib no longer mirrors the code), not a failing input of C17
+                alt = None
+                for order2, (ri2, _) in cands.items():
+                    ok2, red2 = findings_of_run(projects[ri2], runs[ri2])
+                    if ok2 and order2 != forder and not [o for o in set(first) | set(red2) if o != ("parse",) and first.get(o, []) != red2.get(o, [])]:
+                        alt = order2
+                rec = {"project": projects[ii[0]].describe(), "variant": projects[ri].describe(), "kind": "duplicated-names-first-kept",
+                       "what": "a project in which %s is defined more than once is not analysed like the project without the LATER "
+                               "definitions (files in FileID order %s, then source order): findings of %s differ (only with duplicates %s, only "
+                               "without %s); parse-stage findings only with duplicates %s (expected 1..%d reports of one kind), only without %s%s"
+                               % (dn, list(forder), [" ".join(o) for o in bad_o][:3],
+                                  only_in(first.get(bad_o[0], []), red.get(bad_o[0], [])) if bad_o else "",
+                                  only_in(red.get(bad_o[0], []), first.get(bad_o[0], [])) if bad_o else "", [x[:3] for x in extra][:3], ndel,
+                                  [x[:3] for x in missing][:2],
+                                  "; it IS analysed like the project that keeps the first definitions in the order %s: the tool is "
+                                  "deterministic but Model.RunnerLib (first in FileID order) no longer mirrors it" % list(alt) if alt else "")}
+                (broken if alt else failing).append(rec)
                 continue
             dup_stats["first_definition_kept"] += 1
+        # the known finding: the same files, both named on the command line, in the two orders
+        kf_rec = [x for x in ctx.known if x["id"] == "C17-duplicate-name-file-order"]
+        pairs = {}
+        for dj, (spec, ii, cands) in enumerate(dup_idx):
+            if spec["pair"] is not None and dj in dup_findings:
+                pairs.setdefault(spec["pair"], []).append(dj)
+        for pk, djs in sorted(pairs.items()):
+            if len(djs) != 2:
+                continue
+            dup_stats["pairs_in_two_command_line_orders"] += 1
+            (spa, iia, _), (spb, iib, _) = dup_idx[djs[0]], dup_idx[djs[1]]
+            fa, fb = dup_findings[djs[0]], dup_findings[djs[1]]
+            pa = projects[iia[0]]
+            # the class: names defined in two files that are both named on the command line ...
+            per_file = {}
+            for fname, _, n in source_definitions(pa):
+                per_file.setdefault(n, set()).add(fname)
+            kf_names = {n for n, fs in per_file.items() if len(fs & set(pa.argv)) >= 2}
+            # ... and the definitions that look such a name up or instantiate it (recorded lookups of both orders + the texts)
+            allowed = {o for o in set(fa) | set(fb) if o != ("parse",) and o[1] in kf_names}
+            for j2 in (rep_of[iia[0]], rep_of[iib[0]]):
+                rs = deps[j2].get("runs", [])
+                lk = lookups_of(rs[0], projects[j2]) if rs and not rs[0].get("panic") else {}
+                allowed |= {o for o, v in lk.items() if {l[1] for l in v["lookups"]} & kf_names}
+            for fname, (head, defs, tail) in spa["files"].items():
+                for dname, text in defs:
+                    if any(re.search(r"\b%s\s*\(" % re.escape(n), text.split("{", 1)[1]) for n in kf_names):
+                        allowed |= {("template", dname), ("function", dname)}
+            diff = [o for o in sorted(set(fa) | set(fb)) if fa.get(o, []) != fb.get(o, [])]
+            # the duplicate-definition report itself: same id and message, labels swap roles
+            par = lambda f: sorted((x[0], x[1], x[2]) for x in f.get(("parse",), []))
+            outside = [o for o in diff if o not in allowed and not (o == ("parse",) and par(fa) == par(fb))]
+            if outside:
+                o2 = outside[0]
+                failing.append({"project": pa.describe(), "variant": projects[iib[0]].describe(), "kind": "duplicated-names-file-order",
+                                "what": "the same files named in another order on the command line (%s / %s; %s defined in two of them) change "
+                                        "the findings of %s, which is neither a definition of that name nor looks it up (outside the known "
+                                        "finding C17-duplicate-name-file-order): only in the first %s, only in the second %s"
+                                        % (spa["argv"], spb["argv"], sorted(kf_names), " ".join(o2),
+                                           only_in(fa.get(o2, []), fb.get(o2, [])), only_in(fb.get(o2, []), fa.get(o2, [])))})
+            elif diff:
+                dup_stats["pairs_that_differ"] += 1
+                na, nb = sum(len(v) for v in fa.values()), sum(len(v) for v in fb.values())
+                what = ("`%s` displays %d findings, `%s` %d (%s defined in both files; the findings that differ are those of %s): the "
+                        "definition read first is the one kept" % (" ".join(spa["argv"]), na, " ".join(spb["argv"]), nb, sorted(kf_names),
+                                                                   [" ".join(o) for o in diff]))
+                if kf_rec:
+                    ctx.known_finding("C17-duplicate-name-file-order", what)
+                else:
+                    failing.append({"project": pa.describe(), "variant": projects[iib[0]].describe(), "kind": "duplicated-names-file-order",
+                                    "what": "no record C17-duplicate-name-file-order in known_findings.jsonl, and " + what})
         # ---- (6) Model.Runner (extracted) against the binary on these projects: one run per distinct content of the structures
         tie = {"judged": 0, "disagreements": 0, "spec_failures": 0, "error": None}
         tie_idx = [i for i in distinct if isinstance(info[i][0], int) and not dup_of.get(i)]
@@ -1459,9 +1641,17 @@ def run(ctx, proofs):
                     if len(set(mem.values())) >= 2:     # ... and the source of a looked-up definition differs inside the group
                         g_strong += 1
         self_test = compare_self_test()
+        clocks = clock_reads(common.REPO)
+        new_clocks = {f: n for f, n in clocks.items() if f not in CLOCK_ALLOWED}
+        if new_clocks:
+            broken.append({"project": None, "variant": None, "kind": "clock",
+                           "what": "the pipeline reads a clock outside the known time box: %s - findings produced there can depend on "
+                                   "machine load, and no generated definition runs long enough to show it" % new_clocks})
         failing += hyp_failing
         for f in failing[:5]:
-            ctx.violation("findings are not a function of the sources: " + f["what"][:600],
+            head = ("a hypothesis of the C17 theorems is not met by the tool on this input: " if f["kind"].startswith("hypothesis-")
+                    else "findings are not a function of the sources: ")
+            ctx.violation(head + f["what"][:600],
                           {"input": f["project"], "project": f["project"], "variant": f.get("variant"), "kind": f["kind"], "impl": f["what"],
                            "texts_a": f.get("texts_a"), "texts_b": f.get("texts_b"), "ctx_ids": ctx_ids,
                            "spec": "same normalised finding multiset (id, severity, message, labelled source text) per definition, "
@@ -1491,7 +1681,8 @@ def run(ctx, proofs):
             if ao_projects - ao_incomplete < 10:
                 degenerate.append("only %d small projects saw EVERY analysis order through the real analyze_templates (%d tried, %d "
                                   "incomplete)" % (ao_projects - ao_incomplete, ao_projects, ao_incomplete))
-            for feat in ("intermediate", "many_constraints", "less_than_many_num2bits", "call_from_template", "call_from_function", "component_array", "more_than_64_templates",
+            for feat in ("intermediate", "many_constraints", "less_than_many_num2bits", "division_with_iszero", "signals_constrained_in_loop",
+                         "non_constant_else", "unconstrained_inputs", "directory_argument", "bn254_specific", "call_from_template", "call_from_function", "component_array", "more_than_64_templates",
                          "non_default_curve", "library_directory"):
                 if feats_seen.get(feat, 0) < (1 if feat == "more_than_64_templates" else 3):
                     degenerate.append("feature `%s` generated %d times only" % (feat, feats_seen.get(feat, 0)))
@@ -1499,15 +1690,16 @@ def run(ctx, proofs):
             for kind in ("file-added", "file-removed", "files-permuted", "definitions-permuted", "definitions-added", "definitions-removed"):
                 if kind not in kinds_now:
                     degenerate.append("no variant of kind `%s` was generated" % kind)
-            if max_secondary.get("CS0005", 0) < 6 or feats_seen.get("many_constraints", 0) < 10:
-                degenerate.append("no CS0005 finding with 6 or more `constrained here` labels was displayed (largest: %d; %d templates "
-                                  "generated with a `<--` signal in 4..10 constraints)" % (max_secondary.get("CS0005", 0), feats_seen.get("many_constraints", 0)))
-            if max_secondary.get("CS0014", 0) < 2:
-                degenerate.append("no CS0014 finding with 2 or more secondary labels was displayed")
+            # (what the tool answers - e.g. the largest number of secondary labels per id - is recorded, not required: a harmless
+            # merge of labels must not read "generator degenerate"; the guards are on what was GENERATED)
             if displayed_compared < len(structures):
                 degenerate.append("only %d pairs of runs on the same files were compared as displayed" % displayed_compared)
-            if "CS0017" not in ids_seen:
-                degenerate.append("no under-constrained intermediate signal (CS0017) was ever reported")
+            expected_ids = {"CS%04d" % n for n in range(1, 19)} | {"CA01"}
+            if expected_ids - ids_seen:
+                degenerate.append("report ids never displayed in this run: %s (every id a pass can produce must be exercised)"
+                                  % sorted(expected_ids - ids_seen))
+            if dup_stats["pairs_in_two_command_line_orders"] < 2:
+                degenerate.append("only %d pairs of projects with a duplicated name were run in both orders of the command line" % dup_stats["pairs_in_two_command_line_orders"])
             if dup_stats["first_definition_kept"] < 8:
                 degenerate.append("only %d projects with a duplicated name were compared with their reduced project" % dup_stats["first_definition_kept"])
             if not exec_ids:
@@ -1549,7 +1741,8 @@ def run(ctx, proofs):
                    "per-case evaluation of the interface assumed by Model.RunnerSrc; Model.RunnerLib and Model.Desugar are NOT run "
                    "here: RunnerLib's tie is the oracle of field duplicated_names (first definition kept), Desugar's is C18's",
             "projects": len(structures), "projects_displaying_findings": nontrivial, "comparisons": compared,
-            "generated_features": feats_seen,
+            "generated_features": feats_seen, "report_ids_displayed": sorted(ids_seen),
+            "clock_reads": {"found": clocks, "allowed": list(CLOCK_ALLOWED)},
             "largest_number_of_secondary_labels_per_report_id": max_secondary,
             "pairs_of_runs_on_the_same_files_compared_as_displayed": displayed_compared,
             "compared_observables": {
@@ -1562,8 +1755,9 @@ def run(ctx, proofs):
             "runs_per_variant_kind": kinds, "corpus_witnesses": [c["_file"] for c in corpus],
             "fresh_process_runs": len(runs), "in_process_pipeline_runs": inproc_runs,
             "in_process_projects_with_more_than_one_outcome": inproc_multi,
-            "hypotheses_evaluated": dict(hyp, note="KF_duplicate_definition is no hypothesis any more (D22 repaired): it is evaluated to "
-                                                   "route projects to check (5) and to show that the structure generator makes none; "
+            "hypotheses_evaluated": dict(hyp, note="KF_duplicate_definition is evaluated on the sources to route projects to check (5) "
+                                                   "(determinism, first definition kept, known finding for the two orders of the command "
+                                                   "line) and to show that the structure generator makes none; "
                                                    "NoDup (map fst es) of the RunnerLib theorems says that FileIDs are the keys of a "
                                                    "HashMap and is not evaluated"),
             "duplicated_names": dup_stats,
@@ -1626,6 +1820,17 @@ def run(ctx, proofs):
                 "FileID renumbering is covered over Model.Runner only (C17_file_ids_are_names: report payloads are opaque there); the "
                 "element ids that TemplateLibrary::new / the Merger thread through their loops have no model",
                 "`beyond line numbers`: the normalisation of positions and generated names is Python, not a theorem",
+                "the wall clock: value / degree propagation stop after MAX_ANALYSIS_DURATION (10 s, program_structure/src/"
+                "control_flow_graph/cfg.rs), so the findings of a definition that comes near it depend on machine load; no generated "
+                "definition does, no model covers it here (C20 owns the time box); a scan of program_analysis/src and "
+                "program_structure/src for other clock reads runs on every check (field clock_reads)",
+                "the SARIF FILE is compared as a multiset of results with labels as sets: the order of `rules` and of the "
+                "`relatedLocations` of one result comes out of HashSets and differs from run to run on the unchanged tree (same "
+                "multiset of findings: an observation, not a violation of the property text)",
+                "configurations: every run uses --level info --verbose --sarif-file (the most permissive filters); other levels / "
+                "--allow lists are C03's filter law over Model.Runner (C17_runner_order_independent is for all options)",
+                "files named in another order when a name is defined in two of them: known finding C17-duplicate-name-file-order "
+                "(C17_files_in_another_order needs the names distinct; refuted otherwise)",
                 "anonymous instantiation as a reference (desugaring copies the callee's signals): s_refs of Model.RunnerSrc holds "
                 "looked-up names only; the check treats anonymously instantiated templates as references (compare, check (3))",
             ],
